@@ -5,6 +5,7 @@ use crate::header::DBC_MAGIC;
 use std::io::Cursor;
 use std::io::Write;
 use std::io::Read;
+use std::io::{Seek, SeekFrom};
 
 pub fn stub_format(_args: core::fmt::Arguments<'_>) -> String {
     String::new()
@@ -295,3 +296,34 @@ fn u17_7_array_field_decode_u16() { array_field_decode(FieldType::UInt16, 2); }
 #[kani::unwind(8)]
 #[kani::stub(alloc::fmt::format, stub_format)]
 fn u17_7_array_field_decode_u32() { array_field_decode(FieldType::UInt32, 4); }
+
+
+// header emission of DbcWriter::write_records (E11 block; the four measured quantities are parameters): the 20 header bytes
+// are magic, record count, field count, record size, string block size, little-endian at +0/+4/+8/+12/+16, written from
+// position 0 - the layout DbcHeader::parse reads (u17_1_header_parse), so the parsed header reports the written sizes and the
+// size law header + records * record size + string block holds for the file the writer lays out
+// @harness unit=U17.8 props=C17 kind=complete timeout=300 target="writer.rs: DbcWriter::write_records header statements (E11 block), all counts below 2^32" oracle=dbc_writer
+#[kani::proof]
+#[kani::unwind(24)]
+#[kani::stub(alloc::fmt::format, stub_format)]
+fn u17_8_write_header_layout() {
+    let (nr, nf, rs, sb): (usize, usize, usize, usize) = (kani::any(), kani::any(), kani::any(), kani::any());
+    kani::assume(nr <= u32::MAX as usize && nf <= u32::MAX as usize && rs <= u32::MAX as usize && sb <= u32::MAX as usize);
+    let mut buf = [0xAAu8; 24];
+    let start: u64 = kani::any();
+    kani::assume(start <= 4);
+    let pos = {
+        let mut c = Cursor::new(&mut buf[..]);
+        c.set_position(start);   // wherever the sink stood, the header goes to offset 0
+        match blk_write_header(&mut c, nr, nf, rs, sb) { Ok(()) => c.position(), Err(e) => { core::mem::forget(e); assert!(false, "writing 20 bytes into a 24-byte sink succeeds"); return; } }
+    };
+    assert!(pos == 20, "exactly 20 header bytes, starting at offset 0");
+    assert!(buf[0] == DBC_MAGIC[0] && buf[1] == DBC_MAGIC[1] && buf[2] == DBC_MAGIC[2] && buf[3] == DBC_MAGIC[3], "magic first");
+    let i: usize = kani::any();
+    kani::assume(i < 4);
+    assert!(buf[4 + i] == (nr as u32).to_le_bytes()[i], "record count at +4");
+    assert!(buf[8 + i] == (nf as u32).to_le_bytes()[i], "field count at +8");
+    assert!(buf[12 + i] == (rs as u32).to_le_bytes()[i], "record size at +12");
+    assert!(buf[16 + i] == (sb as u32).to_le_bytes()[i], "string block size at +16");
+    assert!(buf[20 + i] == 0xAA, "nothing beyond the header");
+}
